@@ -2798,6 +2798,69 @@ v("C09", "deadline-context-dropped", "httpgrpc/server.go",
 v("C12", "base-path-option-appends-slash", "httpgrpc/server.go",
   "		s.basePath = path\n", "		s.basePath = path + \"/\"\n", "R8", "setter", "the base path stored is not the one configured")
 
+# ------------------------------------------------------------------ third session: D26, wave 7 answers
+v("C08", "d26-nil-response-encoded", "httpgrpc/server.go",
+  "		if err == nil && isNil(resp) {\n			err = status.Error(codes.Internal, \"handler returned neither error nor response message\")\n		}\n", "", "R9", "response-encoded-only-if-present",
+  "pre-fix D26: a unary handler returning (nil, nil) is answered with an empty 200 body (a zero message)")
+v("C01", "frame-writer-never-flushes", "httpgrpc/io.go",
+  "	if err == nil {\n		if f, ok := w.(http.Flusher); ok {\n			f.Flush()\n		}\n	}\n	return err\n}", "	return err\n}", "R12", "flush-after-write",
+  "frames stay in net/http's buffer until the handler returns",
+  edits=[{"file": "httpgrpc/io.go", "old": "	if err == nil {\n		if f, ok := w.(http.Flusher); ok {\n			f.Flush()\n		}\n	}\n	return err\n}", "new": "	return err\n}"},
+         ])
+v("C05", "flush-only-for-trailer", "httpgrpc/io.go",
+  "	if err == nil {\n		if f, ok := w.(http.Flusher); ok {", "	if err == nil && end {\n		if f, ok := w.(http.Flusher); ok {", "R12", "flush-after-write",
+  "only the final frame is flushed: a ping-pong client never sees a reply")
+v("C14", "verdict-through-context-check", "httpgrpc/client.go",
+  "		return stat.Err()\n", "		if ctx.Err() != nil {\n			return statusFromContextError(ctx.Err())\n		}\n		return stat.Err()\n", "R3", "server-verdict-returned-as-is",
+  "a context that ended after the reply arrived replaces the server's code")
+v("C03", "status-check-before-metadata", "httpgrpc/client.go",
+  "x", "y", "R3", "before-the-status-verdict", "failed unary calls leave Header/Trailer targets empty",
+  edits=[{"file": "httpgrpc/client.go", "old": "	// gather headers and trailers\n	if len(copts.Headers) > 0 || len(copts.Trailers) > 0 {\n		if err := setMetadata(reply.Header, copts); err != nil {\n			return err\n		}\n	}\n\n	if stat := statFromResponse(reply); stat.Code() != codes.OK {\n		return stat.Err()\n	}\n",
+          "new": "	if stat := statFromResponse(reply); stat.Code() != codes.OK {\n		return stat.Err()\n	}\n\n	// gather headers and trailers\n	if len(copts.Headers) > 0 || len(copts.Trailers) > 0 {\n		if err := setMetadata(reply.Header, copts); err != nil {\n			return err\n		}\n	}\n"}])
+v("C05", "server-recv-looks-ahead", "inprocgrpc/in_process.go",
+  "	if resp.err != nil {\n		return resp.err\n	}\n	return s.cloner.Copy(m, resp.data)\n", "	if resp.err != nil {\n		return resp.err\n	}\n	if next, err := readMessage(s.ctx, s.requests); err == nil && next.data != nil {\n		return status.Errorf(codes.InvalidArgument, \"unexpected message\")\n	}\n	return s.cloner.Copy(m, resp.data)\n", "R11", "one-receive-per-call",
+  "the handler's RecvMsg waits for what follows its request")
+v("C08", "server-send-counts", "inprocgrpc/in_process.go",
+  "x", "y", "R10", "turns-away-only-for-state", "a surplus response never leaves the server",
+  edits=[{"file": "inprocgrpc/in_process.go", "old": "	if isNil(m) {\n		return status.Errorf(codes.Internal, \"message to send is nil\")\n	}\n\n	m, err := s.cloner.Clone(m)\n	if err != nil {\n		return err\n	}\n	return writeMessage(s.ctx, nil, s.responses, frame{data: m})",
+          "new": "	if isNil(m) {\n		return status.Errorf(codes.Internal, \"message to send is nil\")\n	}\n	if s.sent > 0 && s.single {\n		return status.Errorf(codes.Internal, \"too many responses\")\n	}\n	s.sent++\n\n	m, err := s.cloner.Clone(m)\n	if err != nil {\n		return err\n	}\n	return writeMessage(s.ctx, nil, s.responses, frame{data: m})"},
+         {"file": "inprocgrpc/in_process.go", "old": "type inProcessServerStream struct {\n", "new": "type inProcessServerStream struct {\n	sent   int\n	single bool\n"}])
+v("C10", "client-context-with-peer", "inprocgrpc/in_process.go",
+  "	newCtx = context.WithValue(newCtx, &clientContextKey, ctx)", "	newCtx = context.WithValue(newCtx, &clientContextKey, peer.NewContext(ctx, &inprocessPeer))", "R4", "client-context-is-the-callers",
+  "the back-door context carries a value the library attached")
+v("C02", "status-dug-out-with-errors-as", "httpgrpc/server.go",
+  "x", "y", "R2", "status-is-FromErrors", "the status is taken from the first status error in the chain, not from status.FromError",
+  edits=[{"file": "httpgrpc/server.go", "old": "			st, _ := status.FromError(internal.TranslateContextError(err))\n			if st.Code() == codes.OK {\n				// preserve all error details, but rewrite the code since we don't want\n				// to send back a non-error status when we know an error occured\n				stpb := st.Proto()\n				stpb.Code = int32(codes.Internal)\n				st = status.FromProto(stpb)\n			}\n			statProto := st.Proto()",
+          "new": "			st, _ := status.FromError(internal.TranslateContextError(err))\n			var gs interface{ GRPCStatus() *status.Status }\n			if errors.As(err, &gs) {\n				st = gs.GRPCStatus()\n			}\n			if st.Code() == codes.OK {\n				// preserve all error details, but rewrite the code since we don't want\n				// to send back a non-error status when we know an error occured\n				stpb := st.Proto()\n				stpb.Code = int32(codes.Internal)\n				st = status.FromProto(stpb)\n			}\n			statProto := st.Proto()"},
+         ])
+v("C18", "codec-cloner-clears-by-reflection", "inprocgrpc/cloner.go",
+  "		} else if err := codec.Unmarshal(b, out); err != nil {", "		} else if err := internal.ClearMessage(out); err != nil {\n			return err\n		} else if err := codec.Unmarshal(b, out); err != nil {", "R3", "destination-only-to-the-codec",
+  "a dynamic message cleared by reflection loses its descriptor")
+v("C13", "first-creds-option-wins", "internal/call_options.go",
+  "		case grpc.PerRPCCredsCallOption:\n			copts.Creds = o.Creds\n", "		case grpc.PerRPCCredsCallOption:\n			if copts.Creds == nil {\n				copts.Creds = o.Creds\n			}\n", silent=True,
+  why="NOT decided: a first-wins guard inside the loop is not seen by C13/R4, which looks at how the loop is left (documented gap)")
+v("C13", "creds-loop-left-on-match", "internal/call_options.go",
+  "		case grpc.PerRPCCredsCallOption:\n			copts.Creds = o.Creds\n", "		case grpc.PerRPCCredsCallOption:\n			copts.Creds = o.Creds\n			return &copts\n", "R4", "last-option-wins",
+  "the loop over the options is left on the first credentials option")
+v("C11", "reserved-headers-skipped-before-decode", "httpgrpc/io.go",
+  "		k = strings.ToLower(k)\n		for _, v := range vs {", "		k = strings.ToLower(k)\n		if _, skip := reservedHeaders[k]; skip {\n			continue\n		}\n		for _, v := range vs {", "R6", "decodes-every-bin-header",
+  "a name filter in front of the base64 decode")
+v("C19", "debug-report-reads-outputs", "cmd/protoc-gen-grpchan/protoc-gen-grpchan.go",
+  "x", "y", "R6", "write-only", "ForEach drains the one-shot readers of the response",
+  edits=[{"file": "cmd/protoc-gen-grpchan/protoc-gen-grpchan.go", "old": "func doCodeGen(req *plugins.CodeGenRequest, resp *plugins.CodeGenResponse) error {\n", "new": "func countOutputs(resp *plugins.CodeGenResponse) int {\n	n := 0\n	_ = resp.ForEach(func(name, _ string, data io.Reader) error {\n		b, _ := io.ReadAll(data)\n		n += len(b)\n		return nil\n	})\n	return n\n}\n\nfunc doCodeGen(req *plugins.CodeGenRequest, resp *plugins.CodeGenResponse) error {\n	defer func() { _ = countOutputs(resp) }()\n"},
+         {"file": "cmd/protoc-gen-grpchan/protoc-gen-grpchan.go", "old": "import (\n", "new": "import (\n	\"io\"\n"}])
+v("C19", "bool-words-parsebool", "cmd/protoc-gen-grpchan/protoc-gen-grpchan.go",
+  "	case \"true\", \"on\", \"yes\", \"1\":\n		return true, nil\n	case \"false\", \"off\", \"no\", \"0\":\n		return false, nil", "	case \"true\", \"1\":\n		return true, nil\n	case \"false\", \"0\":\n		return false, nil", "R4", "bool-words",
+  "on/yes/off/no are refused")
+v("C12", "service-uri-unguarded-slice", "internal/call_options.go",
+  "func ApplyPerRPCCreds(ctx context.Context, copts *CallOptions, uri string, isChannelSecure bool) (context.Context, error) {\n", "func ApplyPerRPCCreds(ctx context.Context, copts *CallOptions, uri string, isChannelSecure bool) (context.Context, error) {\n	uri = uri[:strings.LastIndex(uri, \"/\")]\n", "R1", "slice",
+  "a method name without a slash panics",
+  edits=[{"file": "internal/call_options.go", "old": "func ApplyPerRPCCreds(ctx context.Context, copts *CallOptions, uri string, isChannelSecure bool) (context.Context, error) {\n", "new": "func ApplyPerRPCCreds(ctx context.Context, copts *CallOptions, uri string, isChannelSecure bool) (context.Context, error) {\n	uri = uri[:strings.LastIndex(uri, \"/\")]\n"},
+         {"file": "internal/call_options.go", "old": "import (\n", "new": "import (\n	\"strings\"\n"}])
+v("C05", "stream-request-bound-to-callers-context", "httpgrpc/client.go",
+  "transport.RoundTrip(req.WithContext(cs.ctx))", "transport.RoundTrip(req)", "R13", "request-ctx",
+  "the stream's own cancel no longer ends the exchange")
+
 
 def main():
     if os.path.isdir(OUT):
